@@ -1,6 +1,7 @@
 """C17 (partial): the eviction callback is invoked exactly once, on the entry that is unlinked, only
 from eviction, and eviction happens only when the map is full (R-ORDER/R-FLOW); the shard chosen
 for a key depends on the key and on nothing that changes between calls (routing purity)."""
+from vlib import fixtures
 import re
 
 from rules import order
@@ -22,6 +23,7 @@ def need(fx, fid):
 
 def run(ctx):
     fx = ctx.facts("default")
+    fixtures.run(ctx, ['order'])
     ev = need(fx, LM + "evict_lru")
     ctx.analysed_fns.add(ev.id)
     # exactly one callback on every successful path
